@@ -240,6 +240,23 @@ inductive ResetResult where
   | keep (e : DErr)                       -- header / window error: the decoder is left unchanged
   | replace (st : FState) (o : Out Src)   -- the state is replaced (also when the dictionary is missing)
 
+/-- the state of a frame whose header has just been read (no dictionary applied yet) -/
+def freshState (h : FHeader) (hdrLen w : Nat) : FState :=
+  { header := h, bytesRead := hdrLen, buf := ({} : DBuf).reset w }
+
+/-- `DecoderScratch::init_from_dict` -/
+def FState.withDict (st : FState) (dict : Dict) : FState :=
+  { st with entropy := dict.entropy, usingDict := some dict.id, buf := { st.buf with dict := dict.content } }
+
+/-- dictionary selection after the header checks -/
+def applyDictChoice (dicts : List Dict) (st : FState) (rest : Src) : ResetResult :=
+  match st.header.dictId with
+  | none => .replace st (.ok rest)
+  | some id =>
+    match dicts.find? (fun x => x.id = id) with
+    | none => .replace st (.err (.dictNotProvided id))
+    | some dict => .replace (st.withDict dict) (.ok rest)
+
 def resetCore (dicts : List Dict) (maxWindow : Nat) (s : Src) : ResetResult :=
   match readFrameHeader s with
   | .error e => .keep e
@@ -248,16 +265,7 @@ def resetCore (dicts : List Dict) (maxWindow : Nat) (s : Src) : ResetResult :=
     | .error e => .keep e
     | .ok w =>
       if Gen.windowOverLimit w maxWindow then .keep (.windowOverLimit w maxWindow)
-      else
-        let st : FState := { header := h, bytesRead := hdrLen, buf := ({} : DBuf).reset w }
-        match h.dictId with
-        | none => .replace st (.ok rest)
-        | some id =>
-          match dicts.find? (fun x => x.id = id) with
-          | none => .replace st (.err (.dictNotProvided id))
-          | some dict =>
-            .replace { st with entropy := dict.entropy, usingDict := some id,
-                               buf := { st.buf with dict := dict.content } } (.ok rest)
+      else applyDictChoice dicts (freshState h hdrLen w) rest
 
 /-- `FrameDecoder::reset` / `init` (both construction paths, `check_window_size`, dictionary).
 On a header / window error the decoder is unchanged; on a missing dictionary the state HAS been
@@ -266,6 +274,16 @@ def Decoder.reset (d : Decoder) (s : Src) : Decoder × Out Src :=
   match resetCore d.dicts d.maxWindow s with
   | .keep e => (d, .err e)
   | .replace st o => ({ d with state := some st }, o)
+
+/-- `FrameDecoder::force_dict(id)`: seed the current frame's state from a registered dictionary -/
+def Decoder.forceDict (d : Decoder) (id : Nat) : Decoder × Out Unit :=
+  match d.state with
+  | none => (d, .err .notInitialized)
+  | some st =>
+    match d.dicts.find? (fun x => x.id = id) with
+    | none => (d, .err (.dictNotProvided id))
+    | some dict =>
+      ({ d with state := some (st.withDict dict) }, .ok ())
 
 /-- the window-sized (re)allocations `reset` performs on this source: none unless the header
 parses, the window is legal and within the limit (C11: the check precedes the allocation) -/
